@@ -200,4 +200,32 @@ theorem cells_cover (m : Mesh) (hm : m.Inv) (a : Nat) (ha : a < m.ndim) :
   have : (m.nAt a : Rat) ≠ 0 := by exact_mod_cast (Nat.pos_iff_ne_zero.mp (hm.2.2 a ha))
   field_simp
 
+/-- full description of a successful `integrate(d)` on a mesh with more than one dimension -/
+theorem integrate_dir_spec (f : Fld) (hf : WF f) (d : String) (g : Fld)
+    (h : integrate f (.name d) false = .ok (.field g)) :
+    ∃ ax, f.mesh.region.dim2index d = .ok ax ∧ ax < f.mesh.ndim ∧
+      g.mesh.region.pmin = removeAt f.mesh.region.pmin ax ∧
+      g.mesh.region.pmax = removeAt f.mesh.region.pmax ax ∧
+      g.mesh.region.dims = removeAt f.mesh.region.dims ax ∧
+      g.mesh.region.units = removeAt f.mesh.region.units ax ∧
+      g.mesh.n = removeAt f.mesh.n ax ∧ g.data.shape = removeAt f.mesh.n ax ∧
+      g.nvdim = f.nvdim ∧ g.vdims = f.vdims ∧ g.vmap = f.vmap ∧ g.unit = none ∧
+      (∀ i, g.valid.get i = true) ∧
+      ∀ i c, inRange (removeAt f.mesh.n ax) i = true → c < f.nvdim →
+        cget g.data i c = f.mesh.cellAt ax * sumTo (f.mesh.nAt ax) fun j => cget f.data (insertAt i ax j) c := by
+  obtain ⟨ax, m', hax, _, hsel, hshape, hg⟩ := integrate_dir_unpack f d g h
+  obtain ⟨ax', hax', haxlt, _, hpmin, hpmax, hdims, hunits, _, hn, _, _⟩ := sel_spec f.mesh hf.1 d m' hsel
+  rw [hax] at hax'; injection hax' with hax'; subst hax'
+  subst hg
+  refine ⟨ax, hax, haxlt, hpmin, hpmax, hdims, hunits, hn, ?_, rfl, rfl, rfl, rfl, fun _ => rfl, ?_⟩
+  · show removeAt f.data.shape ax = _
+    rw [hf.2]
+  · intro i c hi hc
+    have hi' : inRange (scaleBy f.nvdim (f.mesh.cellAt ax) (sumAxis f.nvdim f.data ax)).shape i = true := by
+      show inRange (removeAt f.data.shape ax) i = true
+      rw [hf.2]; exact hi
+    simp only
+    rw [cget_force _ _ _ hi', cget_scaleBy _ _ _ _ _ hc, cget_sumAxis _ _ _ _ _ hc, mul_comm, hf.2]
+    rfl
+
 end DFV.C06
